@@ -1779,6 +1779,34 @@ theorem step_inv (size : Params → Nat) (s : Sys) (hi : Inv s) (op : Op) (hop :
       have h1 : Inv (poll s).1 := by
         rw [he]; exact (inv_map_loc s hi f hf).of_eq rfl rfl rfl rfl rfl
       exact h1.of_eq rfl rfl rfl rfl rfl
+  | epochL1Unreadable =>
+    simp only [step, tickL1Unreadable]
+    by_cases hfep : s.cfg.fep = true
+    · simp only [hfep, Bool.or_true, if_true]; exact hi
+    have hfep' : s.cfg.fep = false := by simpa using hfep
+    by_cases hu : s.up = true
+    · simp only [hu, hfep', Bool.not_true, Bool.or_false, Bool.false_eq_true, if_false]
+      obtain ⟨f, hf, he⟩ := poll_map s
+      have h1 : Inv (poll s).1 := by
+        rw [he]; exact (inv_map_loc s hi f hf).of_eq rfl rfl rfl rfl rfl
+      have hu1 : (poll s).1.up = true := by rw [he]; exact hu
+      generalize hp : poll s = pr at h1 hu1
+      obtain ⟨s1, p⟩ := pr
+      simp only at h1 hu1 ⊢
+      have hsend : Inv (send size s1 false).1 := send_inv size s1 h1 hu1 false
+      have hprov : Inv ({ s1 with prover := (buildAny size s1).2 } : Sys) := h1.of_eq rfl rfl rfl rfl rfl
+      by_cases hpp : p.pending = true
+      · simp only [hpp, Bool.not_true, Bool.false_eq_true, if_false]
+        exact h1.of_eq rfl rfl rfl rfl rfl
+      · have : p.pending = false := by simpa using hpp
+        simp only [this, Bool.not_false, if_true]
+        split
+        · split
+          · exact hsend.of_eq rfl rfl rfl rfl rfl
+          · exact hprov.of_eq rfl rfl rfl rfl rfl
+        · exact hsend.of_eq rfl rfl rfl rfl rfl
+    · have : s.up = false := by simpa using hu
+      simp only [this, Bool.not_false, Bool.true_or, if_true]; exact hi
   | crash =>
     refine ⟨hi.l2wf, hi.ids, hi.closedPrefix, hi.chain, hi.sorted, hi.rows, fun h => by simp [step] at h, ?_,
       hi.l2sorted, hi.content, hi.startOK, hi.deposits, hi.counts, hi.fromGe⟩
